@@ -104,6 +104,8 @@ def cxx(e):
         return "o." + e["n"]
     if k == "s":
         return "o.s"
+    if k == "k":
+        return "decltype(o.s)(%d)" % e["v"]
     if k == "neg":
         return "(-%s)" % cxx(e["x"])
     if k == "not":
@@ -122,6 +124,8 @@ def tstr(e):
         return e["n"]
     if k == "s":
         return "s"
+    if k == "k":
+        return "k%d" % e["v"] if e["v"] >= 0 else "km%d" % -e["v"]
     if "x" in e:
         return "%s(%s)" % (k, tstr(e["x"]))
     return "%s(%s,%s)" % (k, tstr(e["l"]), tstr(e["r"]))
